@@ -214,3 +214,34 @@ func VerifTieredReadAcrossFlushAndEviction() {
 	verif.Assert("then-end-of-file", n == 0)
 	h.checkKey(0)
 }
+
+// VerifFindingTieredRecreateDuringFlushSeam (FINDINGS.md F2): the same window
+// as VerifFindingTieredRecreateDuringFlush, forced deterministically through
+// the package's own memOpen seam (single goroutine, so the native replay takes
+// exactly this order): the client deletes, re-creates and completes the key
+// right after the flusher has opened the old blob in memory.
+func VerifFindingTieredRecreateDuringFlushSeam() {
+	h := vtNewDriven(2)
+	h.create(0, verif.Bytes("data", 2))
+	h.markComplete(0)
+	orig := memOpen
+	defer func() { memOpen = orig }()
+	fired := false
+	memOpen = func(mem *memory.Store, key string) (*memory.File, error) {
+		f, err := orig(mem, key)
+		if !fired {
+			fired = true
+			h.delete(0)
+			h.create(0, verif.Bytes("data2", 2))
+			h.markComplete(0)
+		}
+		return f, err
+	}
+	h.flushOne()
+	verif.Assert("seam-fired", fired)
+	h.checkKey(0)
+	h.drain()
+	h.checkKey(0)
+	h.pressure(2)
+	h.checkKey(0)
+}
